@@ -205,11 +205,15 @@ def run(ctx, F):
             gs = guards(f, c.bb)
             won = any(re.search(grx, show(p.tree)) and p.val is gval for p in gs)
             x = strip(f.flow.arg_tree(c, 1))
-            rets = [strip(t) for b, t, g in ret_table(f) if b in (f.cfg.reachable_from(c.bb) | {c.bb})]
+            # values returned on paths through the enqueue: defined after it, or defined before it on a path that reaches it
+            after = f.cfg.reachable_from(c.bb) | {c.bb}
+            rets = [strip(t) for b, t, g in ret_table(f) if b in after or c.bb in f.cfg.reachable_from(b)]
             if what == "same":
                 okx = show(x) == "arg3" and all(show(r) == "arg3" for r in rets)
             elif what == "copy":
-                okx = "forward_object(" in show(x) and any(r == x or show(r) == show(x) for r in rets)
+                xs = [strip(a) for a in (x[1] if x and x[0] == "phi" else [x])]
+                okx = "forward_object(" in show(x) and (any(r == x or show(r) == show(x) for r in rets) or
+                                                       (bool(rets) and all(any(r == a or show(r)[:80] == show(a)[:80] for a in xs) for r in rets) and any("forward_object(" in show(r) for r in rets)))
             else:  # forwarded: MarkCompact's second trace enqueues the object and returns its forwarding address
                 okx = show(x) == "arg3" and all("get_header_forwarding_pointer" in show(r) for r in rets)
             ok = won and okx and bool(rets)
